@@ -10,43 +10,58 @@ def nonzero_limit_guard(ctx, rid):
     """the divisor of get_sleep_duration is a limit's number, and RateLimit::new (the only writer of `limits`) stores a
     number only on the non-zero edge of a comparison with 0"""
     prog = ctx.prog
-    nb = prog.must_body(RL + "::new")
-    pushes = [c for c in nb.calls_to("alloc::vec::Vec::push")]
-    guards = []
-    for i in sorted(nb.live_blocks()):
-        for st in nb.blocks[i]["stmts"]:
-            if st["s"] != "assign" or st["rv"]["k"] != "binop" or st["rv"]["op"] not in ("Eq", "Ne", "Gt", "Lt", "Ge", "Le"):
-                continue
-            a, b = st["rv"]["a"], st["rv"]["b"]
-            ca, cb = op_const(a), op_const(b)
-            zero_b = cb is not None and cb.get("int") == 0
-            zero_a = ca is not None and ca.get("int") == 0
-            if not (zero_a or zero_b):
-                continue
-            other = a if zero_b else b
-            sl = origins(nb, other)
-            if ("tuple", 0) not in sl.fields or not sl.has_leaf("param:1"):
-                continue
-            op = st["rv"]["op"]
-            if zero_a:
-                op = {"Gt": "Lt", "Lt": "Gt", "Ge": "Le", "Le": "Ge"}.get(op, op)
-            for sbb, neg in switches_on(nb, st["lhs"]["l"]):
-                t, f = bool_edges(nb, sbb)
-                if neg:
-                    t, f = f, t
-                if op in ("Eq", "Le"):        # x == 0 / x <= 0 : non-zero edge = false
-                    guards.append((sbb, f))
-                elif op in ("Ne", "Gt"):      # x != 0 / x > 0
-                    guards.append((sbb, t))
-                elif op == "Ge":             # x >= 1 written as 0 <= ... : skip
-                    pass
-    lim_pushes = []
-    for c in pushes:
-        sl = arg_origins(c, 1)
-        if ("tuple", 0) in sl.fields or sl.has_leaf("param:1"):
-            lim_pushes.append(c)
-    ok, hit = unreachable_without(nb, [c.bb for c in lim_pushes], removed_edges=guards)
-    ctx.require(rid, bool(guards) and bool(lim_pushes) and ok, "%s:%s" % (nb.file, nb.line),
+    nb0 = prog.must_body(RL + "::new")
+    found = False
+    # the test may sit in RateLimit::new's own loop, or in the closure that converts one (number, period) entry when the list is
+    # built with map(..).collect::<Result<..>>()
+    for nb in body_family(prog, RL + "::new"):
+        in_closure = nb is not nb0
+        guards = []
+        for i in sorted(nb.live_blocks()):
+            for st in nb.blocks[i]["stmts"]:
+                if st["s"] != "assign" or st["rv"]["k"] != "binop" or st["rv"]["op"] not in ("Eq", "Ne", "Gt", "Lt", "Ge", "Le"):
+                    continue
+                a, b = st["rv"]["a"], st["rv"]["b"]
+                ca, cb = op_const(a), op_const(b)
+                zero_b = cb is not None and cb.get("int") == 0
+                zero_a = ca is not None and ca.get("int") == 0
+                if not (zero_a or zero_b):
+                    continue
+                other = a if zero_b else b
+                sl = origins(nb, other)
+                if ("tuple", 0) not in sl.fields or not sl.has_leaf("param:%d" % (2 if in_closure else 1)):
+                    continue
+                op = st["rv"]["op"]
+                if zero_a:
+                    op = {"Gt": "Lt", "Lt": "Gt", "Ge": "Le", "Le": "Ge"}.get(op, op)
+                for sbb, neg in switches_on(nb, st["lhs"]["l"]):
+                    t, f = bool_edges(nb, sbb)
+                    if neg:
+                        t, f = f, t
+                    if op in ("Eq", "Le"):        # x == 0 / x <= 0 : non-zero edge = false
+                        guards.append((sbb, f))
+                    elif op in ("Ne", "Gt"):      # x != 0 / x > 0
+                        guards.append((sbb, t))
+        if not guards:
+            continue
+        if not in_closure:
+            producers = [c.bb for c in nb.calls_to("alloc::vec::Vec::push") if ("tuple", 0) in arg_origins(c, 1).fields or arg_origins(c, 1).has_leaf("param:1")]
+        else:
+            # every definition of the closure's result that is not an error value
+            producers = []
+            for kind, bb, j, x in nb.defs.get(0, []):
+                if kind == "stmt" and x["s"] == "assign" and x["rv"]["k"] == "agg" and x["rv"].get("variant") == "Err":
+                    continue
+                if kind == "call" and (x.get("fn") or "").endswith("FromResidual::from_residual"):
+                    continue
+                producers.append(bb)
+            users = closure_users(nb0, nb.key)
+            if not users or not all(u.name.rsplit("::", 1)[-1] in ("map", "try_for_each", "and_then") for u in users):
+                producers = []
+        ok, hit = unreachable_without(nb, producers, removed_edges=guards)
+        if producers and ok:
+            found = True
+    ctx.require(rid, found, "%s:%s" % (nb0.file, nb0.line),
                 "RateLimit::new stores a limit only on the non-zero edge of a test of its number against 0 "
                 "(so the division in get_sleep_duration and the admission bound are never 0)", [RL + "::new", "zero-number-accepted"])
     # limits is written only by `new` (struct literal) — any other writer could introduce a zero
@@ -112,8 +127,17 @@ def body_family(prog, root_key):
 
 
 def closure_users(parent, closure_key):
-    """calls of `parent` that take the closure `closure_key` itself as an argument (it appears among their generic arguments)"""
-    return [u for u in parent.calls if closure_key in u.gbodies and u.bb in parent.live_blocks()]
+    """calls of `parent` that take the closure `closure_key` itself as an argument (not merely an adaptor type mentioning it)"""
+    cb = parent.prog.bodies.get(closure_key) if getattr(parent, "prog", None) is not None else None
+    cty = cb.locals[1]["ty"].lstrip("&").replace("mut ", "").strip() if cb is not None and len(cb.locals) > 1 else None
+    out = []
+    for u in parent.calls:
+        if closure_key not in u.gbodies or u.bb not in parent.live_blocks():
+            continue
+        tys = [t.lstrip("&").replace("mut ", "").strip() for t in (u.term.get("arg_tys") or [])]
+        if cty is None or not tys or cty in tys:
+            out.append(u)
+    return out
 
 
 def closure_capture_origins(parent, closure_key):
@@ -125,3 +149,84 @@ def closure_capture_origins(parent, closure_key):
             for o in st["rv"]["ops"]:
                 sls.append(origins(parent, o))
     return sls
+
+
+def name_lookup(prog, key):
+    """How `key` (returning Result) looks an element up by name. Two shapes are understood:
+      loop: `for x in list { if x.name == wanted { return Ok(..) } } Err(..)` — every Ok lies behind the true edge of an equality;
+      find: `list.iter().find(|x| x.name == wanted) [.map/.cloned] .ok_or[_else](..)` — the predicate is the equality, the
+            result is the find's Option turned into a Result.
+    Returns {"good": bool, "fields": set of ADT fields compared, "shape": str}."""
+    from ..util import call_true_false_edges, result_return_kinds, unreachable_without
+    b = prog.must_body(key)
+    okb, errb, fwd = result_return_kinds(b)
+    fields = set()
+    fam = body_family(prog, key)
+    tr = []
+    for c in b.calls:
+        if c.fn == "core::cmp::PartialEq::eq" and c.bb in b.live_blocks():
+            t, f = call_true_false_edges(b, c)
+            if t:
+                tr += t
+                fields |= arg_origins(c, 0).fields | arg_origins(c, 1).fields
+    if tr:
+        good, hit = unreachable_without(b, okb, removed_edges=tr)
+        if good and errb and okb:
+            return {"good": True, "fields": fields, "shape": "loop"}
+    ret = origins(b, {"l": 0, "p": []})
+    for fb in fam:
+        if fb is b:
+            continue
+        users = closure_users(b, fb.key)
+        if not users or not all(u.name.rsplit("::", 1)[-1] in ("find", "position") for u in users):
+            continue
+        r0 = origins(fb, {"l": 0, "p": []})
+        eqs = [c for c in r0.calls if c.fn == "core::cmp::PartialEq::eq"]
+        if len(eqs) != 1 or "unop:Not" in r0.via or any(v.startswith("binop:") for v in r0.via):
+            continue
+        fields = arg_origins(eqs[0], 0).fields | arg_origins(eqs[0], 1).fields
+        used = any(x.bb == users[0].bb for x in ret.calls)
+        to_res = any(x.name.rsplit("::", 1)[-1] in ("ok_or", "ok_or_else") for x in ret.calls) or bool(errb)
+        lossy = [v for v in ret.via if v.rsplit("::", 1)[-1] in ("unwrap_or", "unwrap_or_default", "unwrap_or_else", "or", "or_else")]
+        if used and to_res and not lossy:
+            return {"good": True, "fields": fields, "shape": "find"}
+        # `match list.iter().find(..) { Some(x) => Ok(..), None => Err(..) }`
+        from ..mir import try_edges
+        some_e = [(t["bb"], tg) for u in users for t in try_edges(b, [u.dest["l"]]) for tg in t["ok"]]
+        if some_e and okb and errb:
+            good, hit = unreachable_without(b, okb, removed_edges=some_e)
+            if good:
+                return {"good": True, "fields": fields, "shape": "find+match"}
+    return {"good": False, "fields": fields, "shape": "?"}
+
+
+SET_TESTS = ("alloc::collections::btree::set::BTreeSet::contains", "std::collections::hash::set::HashSet::contains", "alloc::vec::Vec::contains",
+             "core::slice::<impl [T]>::contains", "core::iter::traits::iterator::Iterator::any")
+SET_INSERTS = ("alloc::collections::btree::set::BTreeSet::insert", "std::collections::hash::set::HashSet::insert", "alloc::vec::Vec::push")
+
+
+def visited_guard(body, is_set):
+    """Edges on which `the current element was not visited before` is known, and the insertion sites, for a visited set selected
+    by is_set(Slice of the receiver). Two idioms: `if set.contains(x) { return } set.insert(x)` (false edge of the test) and
+    `if !set.insert(x) { return }` (true edge of a tested insert: BTreeSet/HashSet::insert returns whether the value is new).
+    Returns (fresh_edges, insert_calls, test_calls, revisit_edges)."""
+    from ..util import call_true_false_edges
+    fresh, revisit, tests, inserts = [], [], [], []
+    for c in body.calls:
+        if c.bb not in body.live_blocks() or not c.args:
+            continue
+        if c.is_(*SET_TESTS) and is_set(arg_origins(c, 0)):
+            t, f = call_true_false_edges(body, c)
+            if f:
+                tests.append(c)
+                fresh += f
+                revisit += t
+        elif c.is_(*SET_INSERTS) and is_set(arg_origins(c, 0)):
+            inserts.append(c)
+            if not c.name.endswith("::push"):
+                t, f = call_true_false_edges(body, c)
+                if t:
+                    tests.append(c)
+                    fresh += t
+                    revisit += f
+    return fresh, inserts, tests, revisit
